@@ -1,6 +1,7 @@
 package symex
 
 import (
+	"math"
 	"net/url"
 	"path"
 	"fmt"
@@ -426,6 +427,16 @@ func init() {
 				}
 			}
 			panic(unsupported("vFmtInt: no integer in opaque string"))
+		},
+		// vModelPanic(msg string): a stub models a runtime panic of the code it replaces (reported like a real panic)
+		"vModelPanic": func(in *Interp, st *State, fr *Frame, fn *ssa.Function, args []Value) Value {
+			msg := mustStr(args[0], "vModelPanic")
+			site := in.posOf(fr.Block.Instrs[fr.PC], fr)
+			if in.Cfg.PanicMode == "assume" {
+				panic(pathEnd{"cut"})
+			}
+			in.obligation(st, "panic:"+msg+"@"+site, "panic", site, False, msg)
+			panic(pathEnd{"panic"})
 		},
 		// vThread(k int): logical thread marker for the shared-access (lockset) check
 		"vThread": func(in *Interp, st *State, fr *Frame, fn *ssa.Function, args []Value) Value {
@@ -884,7 +895,7 @@ func init() {
 		"strings.Split": func(in *Interp, st *State, fr *Frame, fn *ssa.Function, args []Value) Value {
 			if ps, ok := structArg(args, 1); ok {
 				sep := mustStr(args[1], "Split")
-				if !digitFree(sep) {
+				if !sepSafe(ps, sep) {
 					panic(unsupported("strings.Split of a structured string with a separator containing digits"))
 				}
 				var vals []Value
@@ -901,7 +912,7 @@ func init() {
 		"strings.Cut": func(in *Interp, st *State, fr *Frame, fn *ssa.Function, args []Value) Value {
 			if ps, ok := structArg(args, 1); ok {
 				sep := mustStr(args[1], "Cut")
-				if !digitFree(sep) {
+				if !sepSafe(ps, sep) {
 					panic(unsupported("strings.Cut of a structured string with a separator containing digits"))
 				}
 				pieces := splitParts(ps, sep, 2)
@@ -941,6 +952,28 @@ func init() {
 				return normParts(ps)
 			}
 			return StrV{S: strings.Join(ss, mustStr(args[1], "strings.Join"))}
+		},
+		"strconv.ParseFloat": func(in *Interp, st *State, fr *Frame, fn *ssa.Function, args []Value) Value {
+			if ps, ok := structArg(args); ok {
+				if len(ps) == 1 && ps[0].Num != nil {
+					return TupleV{in.rn(ToReal(ps[0].Num)), IfaceV{}}
+				}
+				panic(unsupported("strconv.ParseFloat of a structured string that is not a single number"))
+			}
+			f, err := strconv.ParseFloat(mustStr(args[0], "strconv.ParseFloat"), int(constI64(args[1], "ParseFloat bitSize")))
+			if err != nil {
+				site := in.posOf(fr.Block.Instrs[fr.PC], fr)
+				id := st.alloc(OpaqueErr{Site: site, Msg: err.Error()})
+				return TupleV{RealC(new(big.Rat)), IfaceV{T: opaqueErrType, V: PtrV{Obj: id}}}
+			}
+			if math.IsNaN(f) {
+				panic(unsupported("strconv.ParseFloat: NaN"))
+			}
+			r := new(big.Rat)
+			if r.SetFloat64(f) == nil {
+				return TupleV{InfV{Neg: f < 0}, IfaceV{}}
+			}
+			return TupleV{RealC(r), IfaceV{}}
 		},
 		"net/url.QueryUnescape": func(in *Interp, st *State, fr *Frame, fn *ssa.Function, args []Value) Value {
 			if ps, ok := structArg(args); ok {
